@@ -24,8 +24,16 @@
 (***************************************************************************)
 EXTENDS MutateImpl
 
-CONSTANT ObjDefect     \* "none"; negative controls: "stale-rdlength" (F-like: RDLENGTH copied, not rewritten),
-                       \* "stale-cursor" (cursor keeps its offsets of the compressed bytes)
+CONSTANTS MaxSuffixes, MaxSuffixLen, PtrLimit, ImplBug      \* of the compressor's dictionary, used by the renamer
+RF == INSTANCE RenameFull
+
+CONSTANT ObjDefect     \* "none"; negative controls, each a defect the pinned tree had or a seeded change made:
+                       \* "stale-rdlength"   RDLENGTH copied, not rewritten, by the re-emission
+                       \* "stale-cursor"     cursor keeps its offsets of the compressed bytes (F20)
+                       \* "edns-not-shifted" offset_edns not moved when a record in front of OPT is resized (F19)
+                       \* "opt-summary-kept" deleting the OPT record leaves the EDNS summary (F22)
+                       \* "opt-insert-unsynced" an inserted OPT record does not bring its summary (F29)
+                       \* "rename-clears-flag" a rename leaves / sets "no pointer" on bytes it has just compressed (C09-m1)
 
 \* ---- Compress::uncompress, byte-exact, on structurally acceptable bytes ----
 RecOut(p, r) ==
@@ -68,11 +76,12 @@ SubSetRawName(st, sec, arg) ==
        IF ~st.c.tomb /\ IsOptAt(st, sec) /\ Len(nm) # 1 THEN Fails(st)
        ELSE IF st.c.tomb THEN Fails(st)
        ELSE LET r == Ready(st, sec)  s2 == SetRawName([p |-> r.p, v |-> r.v, c |-> r.c], nm) IN
-            Okay(NoMC(s2))
+            Okay(NoMC(IF ObjDefect = "edns-not-shifted" THEN [s2 EXCEPT !.v.oedns = r.v.oedns] ELSE s2))
 
 SubDelete(st, sec) ==
   IF st.c.tomb THEN Fails(st)
-  ELSE LET r == Ready(st, sec)  s2 == Delete([p |-> r.p, v |-> r.v, c |-> r.c]) IN Okay(NoMC(s2))
+  ELSE LET r == Ready(st, sec)  s2 == Delete([p |-> r.p, v |-> r.v, c |-> r.c]) IN
+       Okay(NoMC(IF ObjDefect = "opt-summary-kept" /\ IsOptAt(r, sec) THEN [s2 EXCEPT !.v.oedns = r.v.oedns, !.v.ecount = r.v.ecount] ELSE s2))
 
 SubUncompress(st, sec) ==
   IF ~st.v.mc THEN Okay(st)
@@ -126,7 +135,14 @@ ObjInsert(p, mc, sec, r) ==
   ELSE LET s2 == Insert(st, sec, rr) IN
        \* an OPT record brings the EDNS summary with it: its options start behind the root owner and the fixed part
        [ok |-> TRUE, p |-> s2.p,
-        v |-> IF r.t = TOPT THEN [s2.v EXCEPT !.oedns = Len(q) + 11, !.ecount = OptionCount(r.fixed, 0)] ELSE s2.v]
+        v |-> IF r.t = TOPT /\ ObjDefect # "opt-insert-unsynced" THEN [s2.v EXCEPT !.oedns = Len(q) + 11, !.ecount = OptionCount(r.fixed, 0)] ELSE s2.v]
+
+\* ---- ParsedPacket::rename_with_raw_names: the renamer's output replaces the bytes and is parsed afresh ----
+\* (needs exactly one question: the renamer parses nothing but walks the sections of the object)
+ObjRename(p, tgt, src, sfx) ==
+  LET r == RF!RenameOut(p, tgt, src, sfx) IN
+  IF r.k # "ok" THEN [ok |-> FALSE, p |-> p, v |-> ViewMC(p, TRUE)]
+  ELSE [ok |-> TRUE, p |-> r.b, v |-> ViewMC(r.b, ObjDefect # "rename-clears-flag")]
 
 \* RR::new_question(name, AAAA, IN) inserted into the question section
 ObjInsertQ(p, mc, labels) ==
